@@ -10,8 +10,12 @@ var letterOf = func() map[uint8]byte {
 	return m
 }()
 
-// complement of a residue from set complementation: A<->T, C<->G on every member of the set
+// complement of a residue from set complementation: A<->T, C<->G on every member of the set; the
+// letter case is kept
 func complement(c byte) byte {
+	if c >= 'a' && c <= 'z' {
+		return complement(c-32) + 32
+	}
 	s := Set(c)
 	if s == 0 {
 		return c
